@@ -109,18 +109,22 @@ theorem addChar_pre_fits (b : WB) (tag wt : Tag) (e : TLine) (c : Ch) (h : PreIn
   have hmono := lw_expandGo_mono tag [c] e
   by_cases hws : c.ws = true
   · -- whitespace: flush the pending word first
-    have hflush : ∃ b1, (if (c.ws && decide (b.wordlen > 0)) = true then b.flushWord .pre else Except.ok b) = .ok b1 ∧
+    have hflush : ∃ b1, (if (c.ws && !b.word.noContent) = true then b.flushWord .pre else Except.ok b) = .ok b1 ∧
         PreInv tag b1 e ∧ b1.word = [] ∧ b1.wordlen = 0 ∧ b1.width = b.width ∧ b1.text = b.text ∧ b1.padBlocks = b.padBlocks := by
-      by_cases hwl : b.wordlen > 0
-      · rw [if_pos (by simp [hws, hwl])]
-        have hnc : b.word.noContent = false := by
+      by_cases hnc : b.word.noContent = true
+      · rw [if_neg (by simp [hnc])]
+        have hw0 : b.word = [] := by
           cases hw : b.word with
-          | nil => rw [hw] at hi; have := hi.wordlen_eq; simp [lw] at this; omega
+          | nil => rfl
           | cons x xs =>
-            have := hcells x (by rw [hw]; simp)
-            simp [TLine.noContent, this]
+            have hx := hcells x (by rw [hw]; simp)
+            rw [hw] at hnc
+            simp [TLine.noContent, hx] at hnc
+        have hz : b.wordlen = 0 := by rw [hi.wordlen_eq, hw0]; rfl
+        exact ⟨b, rfl, ⟨hi, heq, hst, hpw, hcells⟩, hw0, hz, rfl, rfl, rfl⟩
+      · rw [if_pos (by simp [hws, hnc])]
         unfold WB.flushWord
-        rw [if_neg (by simp [hnc])]
+        rw [if_neg hnc]
         simp only
         rw [if_neg (by have := hi.line_fit; show ¬ b.linelen > b.width; omega)]
         rw [if_pos (by show b.wslen + b.wordlen ≤ b.width - b.linelen; omega)]
@@ -144,31 +148,19 @@ theorem addChar_pre_fits (b : WB) (tag wt : Tag) (e : TLine) (c : Ch) (h : PreIn
               rw [← hi.wordlen_eq]; omega
           · simp only [hz, List.replicate_zero, List.append_nil]
             rw [← heq, hz]; simp
-      · rw [if_neg (by simp [hwl])]
-        have hz : b.wordlen = 0 := by omega
-        have hw0 : b.word = [] := by
-          cases hw : b.word with
-          | nil => rfl
-          | cons x xs =>
-            have hx := hcells x (by rw [hw]; simp)
-            have := hi.wordlen_eq
-            rw [hw, hz] at this
-            cases x with
-            | frag n => simp [Elt.isCell] at hx
-            | cell cc => exact absurd rfl (by intro; exact absurd hx (by simp)) |>.elim
-        exact ⟨b, rfl, ⟨hi, heq, hst, hpw, hcells⟩, hw0, hz, rfl, rfl, rfl⟩
     obtain ⟨b1, hf1, ⟨hi1, heq1, hst1, hpw1, _⟩, hw1, hwl1, hwid1, htx1, hpad1⟩ := hflush
     have hle1 : lw e = b1.linelen + b1.wslen := by
       rw [← heq1, hw1, lw_append, lw_append, lw_replicate_spc, hi1.linelen_eq]; simp [lw]
     unfold WB.addChar
     simp only
     rw [hf1]
-    simp only [hws, if_true, WS.preserve]
+    simp only [hws, if_true, WS.preserve, Bool.false_eq_true, if_false]
     rw [if_neg hnl]
-    simp only [expandGo, hws, if_true] at hfit hmono ⊢
     by_cases h9 : c.cp = 9
-    · rw [if_pos h9] at hfit ⊢
-      simp only [h9, if_true] at hmono
+    · have hexp : expandGo tag e [c] = e ++ List.replicate (tabN (lw e)) (spc tag) := by
+        simp only [expandGo, hws, h9, if_true]
+      rw [hexp] at hfit ⊢
+      rw [if_pos h9]
       obtain ⟨t1, t2, t3, t4⟩ := tabN_spec (lw e)
       have hfit' : lw e + tabN (lw e) ≤ b.width := by
         simpa [lw_append, lw_replicate_spc] using hfit
@@ -182,33 +174,44 @@ theorem addChar_pre_fits (b : WB) (tag wt : Tag) (e : TLine) (c : Ch) (h : PreIn
           rw [hwid1]; omega
       · show b1.line ++ List.replicate (tabN (lw e)) (spc tag) ++ List.replicate b1.wslen (spc tag) ++ b1.word = _
         rw [← heq1, hw1]
-        simp only [List.append_nil, List.append_assoc, ← List.replicate_add]
+        simp only [List.append_nil, List.append_assoc, List.replicate_append_replicate]
         congr 2; omega
-    · rw [if_neg h9] at hfit ⊢
+    · rw [if_neg h9]
       by_cases hct : c.ctrl = true
-      · rw [if_pos hct] at hfit ⊢
+      · have hexp : expandGo tag e [c] = e := by
+          simp only [expandGo, hws, h9, hct, if_true, if_false]
+        rw [hexp]
+        rw [if_pos hct]
         exact ⟨b1, rfl, ⟨hi1, heq1, hst1, hpw1, fun x hx => by rw [hw1] at hx; simp at hx⟩, hwid1, htx1, hpad1⟩
-      · rw [if_neg hct] at hfit ⊢
+      · have hexp : expandGo tag e [c] = e ++ List.replicate c.w (spc tag) := by
+          simp only [expandGo, hws, h9, hct, if_true, if_false, Bool.false_eq_true]
+        rw [hexp] at hfit ⊢
+        rw [if_neg hct]
         have hfit' : lw e + c.w ≤ b.width := by simpa [lw_append, lw_replicate_spc] using hfit
         rw [if_neg (by rw [hwid1]; omega)]
         refine ⟨_, rfl, ⟨?_, ?_, fun _ => rfl, hpw1, fun x hx => by rw [hw1] at hx; simp at hx⟩, hwid1, htx1, hpad1⟩
         · exact ⟨hi1.linelen_eq, hi1.wordlen_eq, hi1.line_fit, hi1.text_fit, fun _ => rfl⟩
         · show b1.line ++ List.replicate (b1.wslen + c.w) (spc tag) ++ b1.word = _
           rw [← heq1, hw1]
-          simp only [List.append_nil, List.append_assoc, List.replicate_add]
+          simp only [List.append_nil, List.append_assoc, List.replicate_append_replicate]
   · have hws' : c.ws = false := by simpa using hws
     unfold WB.addChar
     simp only [hws', Bool.false_and, Bool.false_eq_true, if_false]
-    simp only [expandGo, hws', Bool.false_eq_true, if_false] at hfit ⊢
     by_cases hct : c.ctrl = true
-    · rw [if_pos hct] at hfit ⊢
+    · have hexp : expandGo tag e [c] = e := by
+        simp only [expandGo, hws', hct, if_true, Bool.false_eq_true, if_false]
+      rw [hexp]
+      rw [if_pos hct]
       exact ⟨b, rfl, ⟨hi, heq, hst, hpw, hcells⟩, rfl, rfl, rfl⟩
-    · rw [if_neg hct] at hfit ⊢
+    · have hexp : expandGo tag e [c] = e ++ [Elt.cell ⟨c, tag⟩] := by
+        simp only [expandGo, hws', hct, Bool.false_eq_true, if_false]
+      rw [hexp] at hfit ⊢
+      rw [if_neg hct]
       have hfit' : lw e + c.w ≤ b.width := by simpa [lw_append, lw, Elt.w] using hfit
-      have hsw : (decide (WS.pre = WS.pre) && decide (b.linelen + b.wslen + (b.wordlen + c.w) > b.width)) = false := by
+      have hsw : decide (b.linelen + b.wslen + (b.wordlen + c.w) > b.width) = false := by
         simp; omega
-      simp only [hsw, Bool.false_eq_true, if_false, hpw]
-      refine ⟨_, rfl, ⟨?_, ?_, hst, hpw, ?_⟩, rfl, rfl, rfl⟩
+      simp only [hsw, decide_true, Bool.true_and, Bool.and_false, Bool.false_eq_true, if_false, hpw]
+      refine ⟨_, rfl, ⟨?_, ?_, hst, rfl, ?_⟩, rfl, rfl, rfl⟩
       · refine ⟨hi.linelen_eq, ?_, hi.line_fit, hi.text_fit, hi.tag_ok⟩
         show b.wordlen + c.w = lw (b.word ++ [Elt.cell ⟨c, tag⟩])
         simp [lw_append, lw, Elt.w, hi.wordlen_eq]
@@ -219,5 +222,125 @@ theorem addChar_pre_fits (b : WB) (tag wt : Tag) (e : TLine) (c : Ch) (h : PreIn
         rcases hx with hx | hx
         · exact hcells x hx
         · rw [hx]; rfl
+
+theorem expandGo_cons (tag : Tag) (e : TLine) (c : Ch) (cs : List Ch) : expandGo tag e (c :: cs) = expandGo tag (expandGo tag e [c]) cs := by
+  simp only [expandGo]
+  split
+  · split
+    · rfl
+    · split <;> rfl
+  · split <;> rfl
+
+/-- a whole source line that fits (followed by anything): the machine ends in `PreInv` with the line's expansion -/
+theorem addTextGo_pre_fits (tag wt : Tag) (rest : List Ch) (l : List Ch) : ∀ (b : WB) (e : TLine), PreInv tag b e → (∀ c ∈ l, c.cp ≠ 10) →
+    lw (expandGo tag e l) ≤ b.width →
+    ∃ b', b.addTextGo .pre tag wt false (l ++ rest) = b'.addTextGo .pre tag wt false rest ∧ PreInv tag b' (expandGo tag e l) ∧
+      b'.width = b.width ∧ b'.text = b.text ∧ b'.padBlocks = b.padBlocks := by
+  induction l with
+  | nil => intro b e h _ _; exact ⟨b, rfl, h, rfl, rfl, rfl⟩
+  | cons c cs ih =>
+    intro b e h hnl hfit
+    rw [expandGo_cons] at hfit ⊢
+    have hfit1 : lw (expandGo tag e [c]) ≤ b.width := Nat.le_trans (lw_expandGo_mono tag cs _) hfit
+    obtain ⟨b1, e1, i1, w1, t1, p1⟩ := addChar_pre_fits b tag wt e c h (hnl c (by simp)) hfit1
+    obtain ⟨b2, e2, i2, w2, t2, p2⟩ := ih b1 _ i1 (fun x hx => hnl x (by simp [hx])) (by rw [w1]; exact hfit)
+    refine ⟨b2, ?_, i2, w2.trans w1, t2.trans t1, p2.trans p1⟩
+    simp only [List.cons_append, WB.addTextGo, e1]
+    exact e2
+
+/-- the newline that ends a source line: the line is emitted — the expansion minus the blanks still pending — and the
+    machine starts the next line from scratch -/
+theorem newline_pre (b : WB) (tag wt : Tag) (e : TLine) (h : PreInv tag b e) (hp : b.padBlocks = false) (hfit : lw e ≤ b.width)
+    (nl : Ch) (hnl : nl.cp = 10) (hws : nl.ws = true) :
+    ∃ b' L k, b.addChar .pre tag wt false nl = .ok (b', false) ∧ b'.text = b.text ++ [L] ∧ e = L ++ List.replicate k (spc tag) ∧
+      PreInv tag b' [] ∧ b'.width = b.width ∧ b'.padBlocks = b.padBlocks := by
+  obtain ⟨hi, heq, hst, hpw, hcells⟩ := h
+  have hle : lw e = b.linelen + b.wslen + b.wordlen := by
+    rw [← heq, lw_append, lw_append, lw_replicate_spc, hi.linelen_eq, hi.wordlen_eq]
+  -- the state after the optional flush of the pending word
+  have hflush : ∃ b1 k, (if (nl.ws && !b.word.noContent) = true then b.flushWord .pre else Except.ok b) = .ok b1 ∧
+      e = b1.line ++ List.replicate k (spc tag) ∧ b1.Inv ∧ b1.word = [] ∧ b1.width = b.width ∧ b1.text = b.text ∧ b1.padBlocks = b.padBlocks := by
+    by_cases hnc : b.word.noContent = true
+    · rw [if_neg (by simp [hnc])]
+      have hw0 : b.word = [] := by
+        cases hw : b.word with
+        | nil => rfl
+        | cons x xs =>
+          have hx := hcells x (by rw [hw]; simp)
+          rw [hw] at hnc
+          simp [TLine.noContent, hx] at hnc
+      exact ⟨b, b.wslen, rfl, by rw [← heq, hw0]; simp, hi, hw0, rfl, rfl, rfl⟩
+    · rw [if_pos (by simp [hws, hnc])]
+      unfold WB.flushWord
+      rw [if_neg hnc]
+      simp only
+      rw [if_neg (by have := hi.line_fit; show ¬ b.linelen > b.width; omega)]
+      rw [if_pos (by show b.wslen + b.wordlen ≤ b.width - b.linelen; omega)]
+      unfold WB.placeFits
+      by_cases hwz : b.wslen > 0
+      · rw [if_pos hwz]
+        simp only [hst hwz]
+        refine ⟨_, 0, rfl, ?_, ?_, rfl, rfl, rfl, rfl⟩
+        · simp only [WB.pushWs, List.replicate_zero, List.append_nil]; rw [← heq]
+        · refine ⟨?_, rfl, ?_, hi.text_fit, fun h0 => by simp at h0⟩
+          · simp only [WB.pushWs, lw_append, lw_replicate_spc, hi.linelen_eq]
+          · show b.linelen + b.wslen + lw b.word ≤ b.width
+            rw [← hi.wordlen_eq]; omega
+      · rw [if_neg hwz]
+        have hz : b.wslen = 0 := by omega
+        refine ⟨_, 0, rfl, ?_, ?_, rfl, rfl, rfl, rfl⟩
+        · simp only [List.replicate_zero, List.append_nil]; rw [← heq, hz]; simp
+        · refine ⟨?_, rfl, ?_, hi.text_fit, fun h0 => by simp [hz] at h0⟩
+          · simp only [lw_append, hi.linelen_eq]
+          · show b.linelen + lw b.word ≤ b.width
+            rw [← hi.wordlen_eq]; omega
+  obtain ⟨b1, k, hf1, he1, hi1, hw1, hwid1, htx1, hpad1⟩ := hflush
+  unfold WB.addChar
+  simp only
+  rw [hf1]
+  simp only [hws, if_true, WS.preserve, hnl]
+  refine ⟨_, b1.line, k, rfl, ?_, he1, ⟨?_, ?_, fun h0 => by simp at h0, rfl, fun x hx => by
+    have hx' : x ∈ b1.word := hx
+    rw [hw1] at hx'; simp at hx'⟩, hwid1, hpad1⟩
+  · simp [WB.forceFlush, hpad1, hp, htx1]
+  · refine ⟨rfl, ?_, Nat.zero_le _, ?_, fun h0 => by simp at h0⟩
+    · show b1.wordlen = lw b1.word
+      exact hi1.wordlen_eq
+    · intro ho l hl
+      simp only [WB.forceFlush, hpad1, hp, Bool.false_and, Bool.false_eq_true, if_false, List.mem_append, List.mem_singleton] at hl
+      rcases hl with hl | hl
+      · exact hi1.text_fit ho l hl
+      · rw [hl, ← hi1.linelen_eq]; exact hi1.line_fit
+  · show ([] : TLine) ++ List.replicate 0 (spc tag) ++ b1.word = []
+    rw [hw1]; rfl
+
+/-- **a preformatted block whose lines fit is reproduced line for line**: feeding the lines `ls`, each followed by a
+    newline, to a block at the start of a line emits exactly one line per source line — its expansion (tabs to 8-column
+    stops, whitespace of width `w` as `w` blanks, characters without width dropped) minus trailing blanks, all tagged with
+    the main tag (no continuation tag, no wrapping) -/
+theorem pre_block_verbatim (tag wt : Tag) (nl : Ch) (hnl : nl.cp = 10) (hws : nl.ws = true) : ∀ (ls : List (List Ch)) (b : WB),
+    PreInv tag b [] → b.padBlocks = false → (∀ l ∈ ls, (∀ c ∈ l, c.cp ≠ 10) ∧ lw (expandGo tag [] l) ≤ b.width) →
+    ∃ b' Ls, b.addTextGo .pre tag wt false (ls.flatMap (· ++ [nl])) = .ok b' ∧ b'.text = b.text ++ Ls ∧ Ls.length = ls.length ∧
+      (∀ i (hi : i < ls.length) (hj : i < Ls.length), ∃ k, expandGo tag [] ls[i] = Ls[i] ++ List.replicate k (spc tag)) ∧
+      PreInv tag b' [] := by
+  intro ls
+  induction ls with
+  | nil => intro b h _ _; exact ⟨b, [], rfl, by simp, rfl, fun i hi => by simp at hi, h⟩
+  | cons l ls ih =>
+    intro b h hp hall
+    obtain ⟨hnl1, hfit1⟩ := hall l (by simp)
+    obtain ⟨b1, e1, i1, w1, t1, p1⟩ := addTextGo_pre_fits tag wt ([nl] ++ ls.flatMap (· ++ [nl])) l b [] h hnl1 hfit1
+    obtain ⟨b2, L, k, e2, t2, hk, i2, w2, p2⟩ := newline_pre b1 tag wt _ i1 (p1.trans hp) (by rw [w1]; exact hfit1) nl hnl hws
+    obtain ⟨b3, Ls, e3, t3, len3, hk3, i3⟩ := ih b2 i2 (p2.trans (p1.trans hp)) (fun x hx => by
+      have := hall x (by simp [hx]); rw [w2, w1]; exact this)
+    refine ⟨b3, L :: Ls, ?_, by rw [t3, t2, t1]; simp, by simp [len3], ?_, i3⟩
+    · simp only [List.flatMap_cons, List.append_assoc]
+      rw [e1]
+      simp only [List.singleton_append, WB.addTextGo, e2]
+      exact e3
+    · intro i hi hj
+      cases i with
+      | zero => exact ⟨k, hk⟩
+      | succ i => simpa using hk3 i (by simpa using hi) (by simpa using hj)
 
 end H2T
